@@ -3,8 +3,11 @@
 MC    : Daemon.tla (LoopAlive, Accounting, OpenUntouched under arbitrary client items).
 Gen   : Gen_Hostile.tla enumerates attack scripts: two attackers sending hostile items (before or after a handshake),
         attacker disconnects, witness calls and fresh connections, interleaved in every order up to a length.
-Drive : real daemon of both server types, with and without COMMTIMEOUT; hostile items are structure-aware mutations of
-        valid messages built with the real SendingMessage; the witness is a real Proxy connected all along.
+Drive : real daemon of both server types, with and without COMMTIMEOUT, and a thread server whose pool is exhausted (the accept
+        loop then reads the newcomer's first message itself); hostile items are structure-aware mutations of valid INVOKE and
+        CONNECT messages built with the real SendingMessage (every header field at its boundary values in rotation, negative
+        chunk lengths, truncations followed by close, reset or - under COMMTIMEOUT - silence); the witness is a real Proxy
+        connected all along.
 Trace : Trace_Daemon.tla (clauses C05.*).
 """
 import json
@@ -380,8 +383,11 @@ def run(ctx):
     ctx.rule = ("cases = attack script (interleaving of hostile items from two attackers, their disconnects, witness calls and fresh "
                 "connections; items = structure-aware mutations of valid messages) x serializer x server type x COMMTIMEOUT on/off; "
                 "distinct_nontrivial = distinct (script, serializer, server, timeout)")
-    ctx.assumptions = ["a truncated message is always followed by a disconnect (a silent stall blocks the single-threaded multiplex server by "
-                       "design unless COMMTIMEOUT is set, and is outside the statement)",
+    ctx.assumptions = ["without COMMTIMEOUT a truncated message is always followed by a disconnect or reset (a silent stall blocks the "
+                       "single-threaded multiplex server by design and is outside the statement); with COMMTIMEOUT set, silent stalls are "
+                       "generated and the server's own timeout must end them",
+                       "an injected SpinDetected (a server thread that ran 20 s of real time without reaching a blocking operation) counts as "
+                       "that thread being stopped or stranded",
                        "nothing is required of what the attacker itself receives"]
     tlc.mc(ctx, "Daemon", cfg_text=c08.MC_CFG % (c08.SAMPLES[0], ctx.pick(8, 9)))
     tlc.mc(ctx, "Daemon", cfg_text=c08.MC_CFG % (c08.SAMPLES[1], ctx.pick(8, 9)))
